@@ -31,6 +31,7 @@ type caseDef struct {
 	Prefix []int    `json:"prefix,omitempty"` // part 2: first operations of every word of the case
 	Depth  int      `json:"depth,omitempty"`  // part 2: word length
 	Engine string   `json:"engine,omitempty"` // part 3
+	BCfg   *bcfg    `json:"bcfg,omitempty"`   // part 4
 }
 
 var p2Configs = []gcfg{{"EI", false}, {"EIJ", false}, {"EI", true}, {"EIJ", true}}
@@ -60,6 +61,25 @@ func buildCases(tier string, u *universe) (cs []caseDef) {
 	}
 	for _, en := range engineNames {
 		cs = append(cs, caseDef{Part: 3, Engine: en})
+	}
+	na := len(p4Alphabet())
+	for i := range p4ConfigsQuick {
+		c := p4ConfigsQuick[i]
+		d := 2
+		if tier == "thorough" {
+			d = 3
+		}
+		for a := 0; a < na; a++ {
+			cs = append(cs, caseDef{Part: 4, BCfg: &c, Prefix: []int{a}, Depth: d})
+		}
+	}
+	if tier == "thorough" {
+		for i := range p4ConfigsExtra {
+			c := p4ConfigsExtra[i]
+			for a := 0; a < na; a++ {
+				cs = append(cs, caseDef{Part: 4, BCfg: &c, Prefix: []int{a}, Depth: 2})
+			}
+		}
 	}
 	for i := range p2Configs {
 		c := p2Configs[i]
@@ -104,6 +124,7 @@ type childState struct {
 	u         *universe
 	p1        *p1Env
 	p2        *p2Env
+	p4        *p4Env
 	ops       map[string][]opDef
 	confirmed map[string]bool
 }
@@ -165,6 +186,58 @@ func (cs *childState) runCase(cd caseDef) caseResult {
 			b, _ := json.Marshal(v)
 			res.Viols = append(res.Viols, b)
 		}
+	case 4:
+		if cs.p4 == nil {
+			cs.p4 = newP4Env()
+		}
+		c := *cd.BCfg
+		alpha := p4Alphabet()
+		st := newP2Stats()
+		word := make([]int, cd.Depth)
+		copy(word, cd.Prefix)
+		var rec func(pos int)
+		rec = func(pos int) {
+			if pos == cd.Depth {
+				for _, v := range cs.p4.runWord4(c, alpha, word, st, nil) {
+					key := "4|" + v.Engine + "|" + v.Sig
+					if !cs.confirmed[key] {
+						fresh := newP4Env()
+						again := fresh.runWord4(c, alpha, word, newP2Stats(), nil)
+						fresh.close()
+						found := false
+						for _, a := range again {
+							if a.Sig == v.Sig && a.Engine == v.Engine {
+								found = true
+							}
+						}
+						if !found {
+							res.Flaky = append(res.Flaky, fmt.Sprintf("part4 %s: %s not reproduced in a fresh runtime", v.Sig, v.What))
+							continue
+						}
+						cs.confirmed[key] = true
+					}
+					b, _ := json.Marshal(v)
+					res.Viols = append(res.Viols, b)
+				}
+				return
+			}
+			for k := range alpha {
+				word[pos] = k
+				rec(pos + 1)
+			}
+		}
+		rec(len(cd.Prefix))
+		res.Evals = st.Words * int64(len(engineNames))
+		res.Steps, res.NA, res.Reads, res.EngCmp = st.Steps, st.NA, st.Reads, st.EngineCompares
+		for k, v := range st.Outcomes {
+			res.Outcomes[k] = v
+		}
+		res.States, res.Trans = setKeys(st.States), setKeys(st.Trans)
+		names := []string{}
+		for _, k := range word {
+			names = append(names, alpha[k].String())
+		}
+		res.Sample = map[string]any{"part": 4, "cfg": c.String(), "last_word_of_case": names}
 	case 2:
 		if cs.p2 == nil {
 			cs.p2 = newP2Env()
@@ -299,6 +372,30 @@ func doReplay(file string) {
 			fmt.Printf("  STILL FAILS: %s: %s\n", v.Sig, v.What)
 			failed = true
 		}
+	case 4:
+		var r p4Viol
+		json.Unmarshal(doc.Replay, &r)
+		alpha := p4Alphabet()
+		var word []int
+		for _, n := range r.Word {
+			found := false
+			for i := range alpha {
+				if alpha[i].String() == n {
+					word = append(word, i)
+					found = true
+				}
+			}
+			if !found {
+				fw.Fatalf("replay: unknown step %q", n)
+			}
+		}
+		e := newP4Env()
+		vs := e.runWord4(r.Cfg, alpha, word, newP2Stats(), func(s string) { fmt.Println(s) })
+		e.close()
+		for _, v := range vs {
+			fmt.Printf("  STILL FAILS: %s: %s\n", v.Sig, v.What)
+			failed = true
+		}
 	case 3:
 		for _, en := range engineNames {
 			outcome, v := consequenceCase(en)
@@ -371,7 +468,7 @@ func main() {
 	outcomes := fw.NewCounter()
 	samples := fw.NewSampler(16)
 	states, trans, pairs := map[uint64]struct{}{}, map[uint64]struct{}{}, map[uint64]struct{}{}
-	var p1Evals, p2Evals, steps, na, reads, engcmp, crashes int64
+	var p1Evals, p2Evals, p4Evals, p4Steps, steps, na, reads, engcmp, crashes int64
 	var flaky []string
 	stopped := false
 	var retry []int
@@ -380,9 +477,13 @@ func main() {
 		for k, v := range r.Outcomes {
 			outcomes.AddN(k, v)
 		}
-		if cd.Part == 2 {
+		switch cd.Part {
+		case 2:
 			p2Evals += r.Evals
-		} else {
+		case 4:
+			p4Evals += r.Evals
+			p4Steps += r.Steps
+		default:
 			p1Evals += r.Evals
 		}
 		steps += r.Steps
@@ -444,6 +545,11 @@ func main() {
 					desc = fmt.Sprintf("words of %s starting with %s %s", cd.Cfg, ops[cd.Prefix[0]].Name, ops[cd.Prefix[1]].Name)
 					sig = "crash:p2:" + ops[cd.Prefix[0]].Name + ":" + ops[cd.Prefix[1]].Name
 				}
+				if cd.Part == 4 {
+					st := p4Alphabet()[cd.Prefix[0]]
+					desc = fmt.Sprintf("part 4 words of %s starting with %s", cd.BCfg, st)
+					sig = "crash:p4:" + st.String()
+				}
 				run.Violation(sig, fmt.Sprintf("child process crashed while running %s: %s", desc, fw.FirstLines(crash.Stderr, 6)), map[string]any{"part": 0, "case": cd})
 				outcomes.Inc("child-" + crash.Kind)
 				return
@@ -488,9 +594,23 @@ func main() {
 		}
 		bounds["part2 "+c.String()] = map[string]any{"alphabet": len(ops), "depth": depthFor(run.Tier, c), "ops": strings.Join(names, " ")}
 	}
+	{
+		var cfgs []string
+		for _, c := range p4ConfigsQuick {
+			cfgs = append(cfgs, c.String())
+		}
+		d := 2
+		if run.Thorough() {
+			d = 3
+			for _, c := range p4ConfigsExtra {
+				cfgs = append(cfgs, c.String()+" (depth 2)")
+			}
+		}
+		bounds["part4"] = map[string]any{"alphabet": len(p4Alphabet()), "operations": strings.Join(p4OpNames, " "), "paths": strings.Join(p4Paths, " "), "depth": d, "configs": cfgs}
+	}
 	om := outcomes.Map()
 	run.Finish(fw.Coverage{
-		Evaluations:     p1Evals + p2Evals,
+		Evaluations:     p1Evals + p2Evals + p4Evals,
 		DistinctNontriv: int64(len(pairs)) + int64(len(trans)),
 		States:          int64(len(states)), Transitions: steps, TracesValidated: steps,
 		Rule: "part 1: distinct (current external type of the export, declared import type) pairs, each instantiated on both engines; " +
@@ -499,7 +619,7 @@ func main() {
 		Samples: samples.List(), Exhaustive: true, Outcomes: om, Bounds: bounds,
 		Extra: map[string]any{
 			"part1_instantiations": p1Evals, "part1_distinct_type_pairs": len(pairs),
-			"part2_word_executions": p2Evals, "part2_distinct_state_op_pairs": len(trans), "part2_not_applicable_steps": na,
+			"part2_word_executions": p2Evals, "part4_word_executions": p4Evals, "part4_steps": p4Steps, "part2_distinct_state_op_pairs": len(trans), "part2_not_applicable_steps": na,
 			"part2_reads_compared_with_model": reads, "part2_engine_lockstep_comparisons": engcmp, "child_crashes": crashes, "watchdog_reruns": len(retry),
 			"cases": len(cases), "cases_completed": done,
 		},
